@@ -7,7 +7,7 @@ import (
 
 func c11Gen(g *Gen) {
 	r := g.Rng
-	n := g.N(260, 4000)
+	n := g.N(1500, 15000)
 	for i := 0; i < n; i++ {
 		lines := []string{fmt.Sprintf("cfg limit=%d cache=%d inst=%d comp=%d", Pick(r, []int{0, 0, 1, 1, 2, 3, 4}), b2i(r.Chance(55)),
 			r.Range(1, 3), b2i(r.Chance(35)))}
@@ -47,13 +47,33 @@ func c11GenRun(r *Rng) string {
 	}
 	decl := r.Intn(2)
 	prog := genProg(r, kind == "ex", r.Chance(25), 6)
+	if kind == "ex" && r.Chance(60) {
+		// mostly well-behaved exchange cycles so sessions last several turns
+		n := r.Range(1, 7)
+		ticks := make([]string, n)
+		for i := range ticks {
+			if r.Chance(85) {
+				t := genEmit(r, true, r.Chance(20))
+				if r.Chance(35) {
+					t = fmt.Sprintf("l%d;", r.Intn(50)) + t
+				}
+				if r.Chance(15) {
+					t += fmt.Sprintf(";l%d", r.Intn(50))
+				}
+				ticks[i] = t
+			} else {
+				ticks[i] = genTick(r, true, false)
+			}
+		}
+		prog = strings.Join(ticks, "/")
+	}
 	if kind == "pr" && r.Chance(75) {
 		// mostly well-behaved producers so streams span several responses
 		n := r.Range(1, 8)
 		ticks := make([]string, n)
 		for i := range ticks {
 			if r.Chance(85) {
-				t := genEmit(r, false, false)
+				t := genEmit(r, false, r.Chance(20))
 				if r.Chance(35) {
 					t = fmt.Sprintf("l%d;", r.Intn(50)) + t
 				}
